@@ -5,6 +5,7 @@ import Driver.RunnerDriver
 import Driver.CodecDriver
 import Driver.QNameDriver
 import Driver.VersionDriver
+import Driver.VCacheDriver
 open Driver
 
 def main (args : List String) : IO UInt32 := do
@@ -17,5 +18,6 @@ def main (args : List String) : IO UInt32 := do
   | ["codec"] => loop CodecDriver.stepLine stdin stdout []; return 0
   | ["qname"] => loop QNameDriver.stepLine stdin stdout ([] : Memento.QName.CodeBase); return 0
   | ["version"] => loop VersionDriver.stepLine stdin stdout ({} : VersionDriver.St); return 0
+  | ["vcache"] => loop VCacheDriver.stepLine stdin stdout ({} : Memento.VersionCache.St); return 0
   | ["store"] => loop StoreDriver.stepLine stdin stdout StoreDriver.St.none; return 0
   | _ => IO.eprintln "usage: mmodel <model>"; return 2
